@@ -316,7 +316,7 @@ UNIT = {
                    {"at": "after", "anchor": "let q =", "text": GH_MUL_2},
                    {"at": "after", "anchor": "let z =", "occ": 2, "text": GH_MUL_3}]},
         {"kind": "fn", "file": F, "name": "normalize", "ret": "r", "fnlabel": "f62 normalize", "ob": "C10.f62.normalize.contract",
-         "spec": "requires wfv(value),\nensures (r as int) < P(), r as int == (value as int) % P(),",
+         "spec": "requires wfv(value),\nensures (r as int) < P(), r as int == (value as int) % P(), (r as int * R()) % P() == (value as int * R()) % P(),",
          "ghost": [{"at": "start", "text": r'''
     proof {
         if value >= M {
@@ -325,6 +325,8 @@ UNIT = {
         } else {
             vstd::arithmetic::div_mod::lemma_small_mod(value as nat, P() as nat);
         }
+        // (value % P) * R == value * R (mod P)
+        vstd::arithmetic::div_mod::lemma_mul_mod_noop_left(value as int, R(), P());
     }'''}]},
         {"kind": "impl", "file": F, "header": "impl BaseElement", "methods": [
             {"name": "new", "ret": "r", "fnlabel": "f62 BaseElement::new", "ob": "C10.f62.new.contract",
@@ -340,12 +342,9 @@ UNIT = {
             {"name": "as_int", "ret": "r", "fnlabel": "f62 StarkField::as_int", "ob": "C10.f62.as_int.contract",
              "spec": "ensures (r as int) < P(), (r as int * R()) % P() == (self.0 as int) % P(),",
              "ghost": [{"at": "start", "text": r'''
-        proof { assert((self.0 as int) * 1 < P() * R()) by (nonlinear_arith) requires (self.0 as int) < 2 * P(), 2 * P() < P() * R(); }'''},
-                       {"at": "after", "anchor": "let result =", "text": r'''
         proof {
+            assert((self.0 as int) * 1 < P() * R()) by (nonlinear_arith) requires (self.0 as int) < 2 * P(), 2 * P() < P() * R();
             assert(self.0 as int * 1 == self.0 as int);
-            // normalize(result) == result % P and (result % P) * R == result * R (mod P)
-            vstd::arithmetic::div_mod::lemma_mul_mod_noop_left(result as int, R(), P());
         }'''}]}]},
         {"kind": "impl", "file": F, "header": "impl Add for BaseElement", "out_header": "impl core::ops::Add for BaseElement",
          "extra": "type Output = Self;\n", "methods": [
